@@ -385,6 +385,22 @@ impl Send {
         cx: &Context,
         stream: &mut store::Ptr,
     ) -> Poll<Option<Result<WindowSize, UserError>>> {
+        #[cfg(feature = "verif-hooks")]
+        let _verif = crate::verif::enter("send.poll_capacity", || {
+            vec![
+                u32::from(stream.id) as i64,
+                stream.state.is_send_streaming() as i64,
+                stream.state.is_send_closed() as i64,
+                stream.state.is_closed() as i64,
+                stream.is_pending_open as i64,
+                isize::from(stream.send_flow.window_size_raw()) as i64,
+                isize::from(stream.send_flow.available()) as i64,
+                stream.requested_send_capacity as i64,
+                stream.buffered_send_data as i64,
+                stream.send_capacity_inc as i64,
+                self.prioritize.max_buffer_size() as i64,
+            ]
+        });
         if !stream.state.is_send_streaming() {
             return Poll::Ready(None);
         }
@@ -410,6 +426,22 @@ impl Send {
 
     /// Current available stream send capacity
     pub fn capacity(&self, stream: &mut store::Ptr) -> WindowSize {
+        #[cfg(feature = "verif-hooks")]
+        crate::verif::ev("send.capacity", || {
+            vec![
+                u32::from(stream.id) as i64,
+                stream.state.is_send_streaming() as i64,
+                stream.state.is_send_closed() as i64,
+                stream.state.is_closed() as i64,
+                stream.is_pending_open as i64,
+                isize::from(stream.send_flow.window_size_raw()) as i64,
+                isize::from(stream.send_flow.available()) as i64,
+                stream.requested_send_capacity as i64,
+                stream.buffered_send_data as i64,
+                stream.send_capacity_inc as i64,
+                self.prioritize.max_buffer_size() as i64,
+            ]
+        });
         stream.capacity(self.prioritize.max_buffer_size())
     }
 
@@ -503,6 +535,16 @@ impl Send {
         counts: &mut Counts,
         task: &mut Option<Waker>,
     ) -> Result<(), Error> {
+        #[cfg(feature = "verif-hooks")]
+        let _verif = crate::verif::enter("send.apply_remote_settings", || {
+            vec![
+                self.init_window_sz as i64,
+                settings
+                    .initial_window_size()
+                    .map(|v| v as i64)
+                    .unwrap_or(-1),
+            ]
+        });
         if let Some(val) = settings.is_extended_connect_protocol_enabled() {
             self.is_extended_connect_protocol_enabled = val;
         }
@@ -556,6 +598,21 @@ impl Send {
                         );
 
                         // TODO: this decrement can underflow based on received frames!
+                        #[cfg(feature = "verif-hooks")]
+                        crate::verif::ev("send.settings_dec_stream", || {
+                            vec![
+                                u32::from(stream.id) as i64,
+                                stream.state.is_send_streaming() as i64,
+                                stream.state.is_send_closed() as i64,
+                                stream.state.is_closed() as i64,
+                                stream.is_pending_open as i64,
+                                isize::from(stream.send_flow.window_size_raw()) as i64,
+                                isize::from(stream.send_flow.available()) as i64,
+                                stream.requested_send_capacity as i64,
+                                stream.buffered_send_data as i64,
+                                dec as i64,
+                            ]
+                        });
                         stream
                             .send_flow
                             .dec_send_window(dec)
